@@ -659,7 +659,7 @@ inline size_t comm::pack_lambda(std::vector<std::byte> &packed, Lambda l,
   const std::tuple<PackArgs...> tuple_args(
       std::forward<const PackArgs>(args)...);
 
-  auto dispatch_lambda = [](comm *c, cereal::YGMInputArchive *bia, Lambda l) {
+  auto dispatch_lambda = [](comm *c, cereal::YGMInputArchive *bia, Lambda *) {
     Lambda *pl = nullptr;
     size_t  l_storage[sizeof(Lambda) / sizeof(size_t) +
                      (sizeof(Lambda) % sizeof(size_t) > 0)];
@@ -690,7 +690,7 @@ inline void comm::pack_lambda_broadcast(Lambda l, const PackArgs &...args) {
 
   auto forward_remote_and_dispatch_lambda = [](comm                    *c,
                                                cereal::YGMInputArchive *bia,
-                                               Lambda                   l) {
+                                               Lambda *) {
     Lambda *pl = nullptr;
     size_t  l_storage[sizeof(Lambda) / sizeof(size_t) +
                      (sizeof(Lambda) % sizeof(size_t) > 0)];
@@ -705,7 +705,7 @@ inline void comm::pack_lambda_broadcast(Lambda l, const PackArgs &...args) {
     }
 
     auto forward_local_and_dispatch_lambda =
-        [](comm *c, cereal::YGMInputArchive *bia, Lambda l) {
+        [](comm *c, cereal::YGMInputArchive *bia, Lambda *) {
           Lambda *pl = nullptr;
           size_t  l_storage[sizeof(Lambda) / sizeof(size_t) +
                            (sizeof(Lambda) % sizeof(size_t) > 0)];
@@ -720,7 +720,7 @@ inline void comm::pack_lambda_broadcast(Lambda l, const PackArgs &...args) {
           }
 
           auto local_dispatch_lambda = [](comm *c, cereal::YGMInputArchive *bia,
-                                          Lambda l) {
+                                          Lambda *) {
             Lambda *pl = nullptr;
             size_t  l_storage[sizeof(Lambda) / sizeof(size_t) +
                              (sizeof(Lambda) % sizeof(size_t) > 0)];
@@ -818,7 +818,7 @@ inline size_t comm::pack_lambda_generic(std::vector<std::byte> &packed,
     RemoteLogicLambda *rll = nullptr;
     Lambda            *pl  = nullptr;
 
-    (*rll)(c, bia, *pl);
+    (*rll)(c, bia, pl);
   };
 
   uint16_t lid = m_lambda_map.register_lambda(remote_dispatch_lambda);
